@@ -76,7 +76,7 @@ def snapshot(obj):
 class ObjMachine(Machine):
     name = "M-OBJ"
     PROPS = ("C16",)
-    QUICK_RUNS = {"C16": 6000}
+    QUICK_RUNS = {"C16": 4000}
     THOROUGH_BUDGET_S = 600
     RULE = (
         "one evaluation = one seeded history (<= 12 ops) on <= 3 live objects of the eleven "
